@@ -256,11 +256,13 @@ class Evaluator:
                 raise Unmodelled("%s: %s of %r" % (fn.id, acc, v))
             if isinstance(v, tuple) and v and v[0] == "enum" and v[1] == name:
                 return v
+            if name == "Break" and v is None:
+                return ("payload", None)  # the residual of `None?`
             raise Unmodelled("%s: downcast %s of %r" % (fn.id, acc, v))
         key = acc[1:] if acc.startswith(".") else acc
         if isinstance(v, tuple) and v and v[0] == "payload":
             if key == "0":
-                return v[1]
+                return v[1] if v[1] is not None else ("residual-none",)
             raise Unmodelled("%s: field %s of a payload" % (fn.id, key))
         if isinstance(v, tuple) and v and v[0] == "enum":
             if key in v[2]:
@@ -448,6 +450,57 @@ class Evaluator:
             return guard(lambda a: optfirst(a) and isclo(a[2]), lambda args, fn: args[1] if args[0] is None else self.apply(args[2], [args[0][1]], fn))
         if full.endswith("Option::or") and n == 2:
             return guard(optfirst, lambda args, fn: args[0] if args[0] is not None else args[1])
+        mnum = re.match(r"num_(\w+)::(\w+)$", full)
+        if mnum and mnum.group(1) in terms.INT_RANGE and n == 2 and mnum.group(2) in ("checked_add", "checked_sub", "checked_mul", "saturating_add", "saturating_sub", "wrapping_add", "wrapping_sub", "div_ceil", "div_euclid", "rem_euclid", "min", "max", "pow"):
+            lo, hi = terms.INT_RANGE[mnum.group(1)]
+            op = mnum.group(2)
+
+            def intop(args, fn):
+                a, b = int(args[0]), int(args[1])
+                base = op.split("_")[-1]
+                if op in ("div_ceil", "div_euclid", "rem_euclid"):
+                    if b == 0:
+                        raise Unmodelled("%s: division by zero" % fn.id)
+                    r = -(-a // b) if op == "div_ceil" else a // b if (op == "div_euclid" and b > 0) else a % b if (op == "rem_euclid" and b > 0) else None
+                    if r is None:
+                        raise Unmodelled("%s: %s with a negative divisor" % (fn.id, op))
+                    return r
+                if op in ("min", "max"):
+                    return min(a, b) if op == "min" else max(a, b)
+                r = a + b if base == "add" else a - b if base == "sub" else a * b if base == "mul" else a ** b
+                if op.startswith("checked_"):
+                    return ("some", r) if lo <= r <= hi else None
+                if op.startswith("saturating_"):
+                    return max(lo, min(hi, r))
+                if op.startswith("wrapping_"):
+                    return (r - lo) % (hi - lo + 1) + lo
+                return r
+            return guard(lambda a: ints(a) and not any(isinstance(x, bool) for x in a), intop)
+        if mnum and mnum.group(1) in terms.INT_RANGE and n == 1 and mnum.group(2) in ("abs", "unsigned_abs", "signum", "is_negative", "is_positive", "count_ones", "trailing_zeros", "leading_zeros"):
+            op1 = mnum.group(2)
+            bits = {"u8": 8, "i8": 8, "u16": 16, "i16": 16, "u32": 32, "i32": 32, "u64": 64, "i64": 64, "usize": 64, "isize": 64}[mnum.group(1)]
+
+            def int1(args, fn):
+                a = int(args[0])
+                if op1 in ("abs", "unsigned_abs"):
+                    return abs(a)
+                if op1 == "signum":
+                    return (a > 0) - (a < 0)
+                if op1 == "is_negative":
+                    return a < 0
+                if op1 == "is_positive":
+                    return a > 0
+                u = a % (1 << bits)
+                if op1 == "count_ones":
+                    return bin(u).count("1")
+                if op1 == "trailing_zeros":
+                    return bits if u == 0 else (u & -u).bit_length() - 1
+                return bits - u.bit_length()
+            return guard(lambda a: ints(a) and not isinstance(a[0], bool), int1)
+        if name == "from_residual" and n == 1:
+            return guard(lambda a: a[0] == ("residual-none",) or a[0] is None, lambda args, fn: None)
+        if full.endswith("Result::ok") and n == 1:
+            return lambda args, fn: args[0] if (args[0] is None or (isinstance(args[0], tuple) and args[0] and args[0][0] == "some")) else (("some", args[0][2]["0"]) if isinstance(args[0], tuple) and args[0][0] == "enum" and args[0][1] == "Ok" else None)
         if name == "checked_sub" and n == 2:
             return guard(ints, lambda args, fn: ("some", args[0] - args[1]) if args[0] >= args[1] else None)
         if name == "saturating_sub" and n == 2:
